@@ -120,7 +120,10 @@ void generatePlan(uint64_t seed, const GenOptions &opt, Plan &P)
     for (int d = 0; d < ndoms; d++) {
         std::vector<int> sz;
         long N = 1;
-        const int nv = 1 + int(R.below(wantRel ? 3 : 4));
+        int nv = 1 + int(R.below(wantRel ? 3 : 4));
+        // reachability: half of the runs work on one or two variables (long
+        // paths inside one level, where saturation does its own fixed point)
+        if (opt.prop == "C08" && R.chance(1, 2)) nv = 1 + int(R.below(2));
         const long cap = wantRel ? 24 : 96;
         const int bigv = R.chance(1, 6) ? int(R.below(uint64_t(nv))) : -1;
         for (int v = 0; v < nv; v++) {
